@@ -21,6 +21,11 @@
 // ListTransactions, DescribeLogDirs(all)) must yield one shard per broker and
 // a merged list without repeats that holds every group / transactional id the
 // harness created.
+//
+// Finding kept by this check (see repro_test.go for the minimal witness): the
+// per-replica sharders are marked reshardable, so when one replica's shard
+// fails with a retriable connection error its sub-request is re-split to every
+// replica again and brokers that already answered get a second shard.
 package c23
 
 import (
